@@ -127,8 +127,7 @@ def run(ctx):
             ctx.case((text, tuple(pkt), tuple(key)), nontrivial=any(r in signed_rules for r, b in ref.match(pkt)),
                      sample=dict(w, pkt=rc.name_to_uri(pkt, canonical=True), key=rc.name_to_uri(key, canonical=True), expected=exp) if exp and ctx.evaluations % 9000 == 1 else None)
     for k in ('schema', 'check-true', 'check-false'):
-        if not ctx.events.get(k):
-            ctx.inconclusive(f'{k}: nothing observed')
+        ctx.need_event(k)
     ctx.assumptions = ['schemas are level-structured so that no name pattern is its own signer',
                        'constraints refer only to patterns of the rule itself or of rules it references']
 
